@@ -69,6 +69,7 @@ def tasks(tier, seed):
             ts.append({"part": "blackbox", "first": first, "second": None, "L": L, "name": "bb/%d" % first})
     for i in range(0, len(E2E), 4):
         ts.append({"part": "e2e", "lo": i, "hi": min(i + 4, len(E2E)), "name": "e2e/%d" % i})
+    ts.append({"part": "entries", "name": "entries"})
     for api in ("recv", "recv_data"):
         for validate in (1, 0):
             for first in range(len(HIST_MSGS)):
@@ -222,8 +223,12 @@ def completion(r):
     return bytes(lo for lo, hi in r)
 
 
-def e2e_case(payload, nfrag_cuts, validate, api, as_close=False):
-    """payload cut at positions nfrag_cuts (tuple of cut indexes)."""
+ENTRIES = ["WebSocket()", "create_connection()", "create_connection(skip=...)", "WebSocket(skip=...).connect()"]
+
+
+def e2e_case(payload, nfrag_cuts, validate, api, as_close=False, entry=None):
+    """payload cut at positions nfrag_cuts (tuple of cut indexes). entry: how the connection object is obtained; the first two rely on
+    the DEFAULT of the validation option (which is: validation on), the others pass it explicitly through that entry point."""
     lib.reset_globals()
     env.install_urandom("counter")
     valid = R.valid_utf8(payload)
@@ -236,10 +241,24 @@ def e2e_case(payload, nfrag_cuts, validate, api, as_close=False):
         stream = b""
         for i, p in enumerate(parts):
             stream += R.encode(R.TEXT if i == 0 else R.CONT, p, fin=1 if i == len(parts) - 1 else 0)
-    sock = env.ScriptSock(stream, at_end="timeout")
-    ws = env.make_ws(sock, skip_utf8_validation=not validate)
+    if entry is None:
+        sock = env.ScriptSock(stream, at_end="timeout")
+        ws = env.make_ws(sock, skip_utf8_validation=not validate)
+    else:
+        if entry == "WebSocket()":
+            ws, sock = env.prepared_ws("fresh")
+        elif entry == "create_connection()":
+            ws, sock = env.prepared_ws("created")
+        elif entry == "create_connection(skip=...)":
+            ws, sock = env.prepared_ws("created", skip_utf8_validation=not validate)
+        else:
+            ws, sock = env.prepared_ws("connected", skip_utf8_validation=not validate)
+        sock.stream += stream
     sig = {"kind": "utf8-e2e", "api": api, "validate": validate, "close": as_close}
-    label = "payload %r cut at %r, validation %s, via %s%s" % (payload, list(nfrag_cuts), "on" if validate else "off", api, " (close reason)" if as_close else "")
+    if entry:
+        sig["entry"] = entry
+    label = "payload %r cut at %r, validation %s, via %s%s%s" % (payload, list(nfrag_cuts), "on" if validate else "off", api, " (close reason)" if as_close else "",
+                                                                " on an object from %s" % entry if entry else "")
     try:
         if api == "recv":
             got = ws.recv()
@@ -268,8 +287,35 @@ def e2e_case(payload, nfrag_cuts, validate, api, as_close=False):
     return None
 
 
+def run_entries(res):
+    """every end-to-end string, unfragmented and cut once in the middle, as text and as close reason, on objects from every entry point"""
+    n = 0
+    for payload in E2E:
+        for entry in ENTRIES:
+            for validate in ((True,) if entry.endswith("()") else (True, False)):
+                for api in ("recv", "recv_data"):
+                    for cuts, close in (((), False), ((len(payload) // 2,), False), ((), True)):
+                        n += 1
+                        try:
+                            fail = e2e_case(payload, cuts, validate, api, as_close=close, entry=entry)
+                        except Exception as e:
+                            v = as_violation(e)
+                            if v is None:
+                                raise
+                            fail = (dict(v.sig, api=api, validate=validate, entry=entry), v.what + " [payload %r cuts %r entry %s]" % (payload, cuts, entry))
+                        if fail:
+                            runner.add_failure(res, fail[0], fail[1], {"case": "e2e", "payload": payload, "cuts": list(cuts), "validate": validate, "api": api, "close": close, "entry": entry})
+    res["execs"] += n
+    res["distinct"] += n
+    res["complete"] += n
+    res["samples"].append({"entries": ENTRIES, "cases": n})
+    return res
+
+
 def run_task(desc):
     res = runner.new_result()
+    if desc["part"] == "entries":
+        return run_entries(res)
     part = desc["part"]
     if part == "product":
         try:
@@ -368,5 +414,5 @@ def replay(rep):
         s = rep["s"]
         impl = lib._utils.validate_utf8(s)
         return None if bool(impl) == py_valid(s) else {"what": "validate_utf8(%r) = %r" % (s, impl)}
-    fail = e2e_case(rep["payload"], tuple(rep["cuts"]), rep["validate"], rep["api"], rep.get("close", False))
+    fail = e2e_case(rep["payload"], tuple(rep["cuts"]), rep["validate"], rep["api"], rep.get("close", False), rep.get("entry"))
     return None if fail is None else {"sig": fail[0], "what": fail[1]}
